@@ -67,6 +67,11 @@ func NewVoxelSDF3(s SDF3, meshCells int, progress chan float64) SDF3 {
 
 // Evaluate returns the minimum distance to a VoxelSDF3.
 func (m *VoxelSDF3) Evaluate(p v3.Vec) float64 {
+	// The samples cover the bounding box only. A point outside the box is evaluated at
+	// the nearest point of the box, plus the distance to it (there is nothing to
+	// extrapolate from: unsampled corners read as 0 and the weights leave [0, 1]).
+	q := p
+	p = p.Clamp(m.bb.Min, m.bb.Max)
 	// Find the voxel's {0,0,0} corner quickly and compute p's displacement
 	voxelSize := m.bb.Size().Div(conv.V3iToV3(m.numVoxels))
 	voxelStartIndex := conv.V3ToV3i(p.Sub(m.bb.Min).Div(voxelSize))
@@ -92,7 +97,7 @@ func (m *VoxelSDF3) Evaluate(p v3.Vec) float64 {
 	c1 := c01*(1-d.Y) + c11*d.Y
 	// - 1 trilinear interpolation
 	c := c0*(1-d.Z) + c1*d.Z
-	return c
+	return c + q.Sub(p).Length()
 }
 
 // BoundingBox returns the bounding box for a VoxelSDF3.
